@@ -41,6 +41,7 @@ const (
 	mirrorName  = "example.com/mirror"
 	selfOrigin  = "example.com/log"
 	otherOrigin = "example.com/other"
+	thirdOrigin = "example.com/third"
 	plainOrigin = "example.com/plain"
 	unknownOrg  = "example.com/unknown"
 )
@@ -56,6 +57,9 @@ type plan struct {
 	retries      int
 	restartAfter bool // ... and, if the last retry ends with 200, a restart + the resume monitor follow
 }
+
+// entries of the other mirrored logs (example.com/other, example.com/third)
+var sideCount = 300
 
 func noPlan() plan { return plan{restartAt: -1, gcAt: -1, faultEv: -1} }
 
@@ -82,7 +86,8 @@ type hist struct {
 	handler http.Handler
 	mirrorV note.Verifier
 
-	log, other, plain *truthLog
+	log, other, third, plain *truthLog
+	sides             []*monitors // monitors of the other mirrored logs (other, third)
 	otherTicket       []byte // a current-epoch ticket sealed for otherOrigin
 
 	epoch       int
@@ -103,7 +108,8 @@ func newHist(seed int64, scenario, tag string, count int, out *bytes.Buffer, sta
 	h := &hist{seed: seed, scenario: scenario, r: mrand.New(mrand.NewSource(seed)), out: out, stats: stats, plan: noPlan()}
 	h.sim = newSim(out, stats)
 	h.log = newTruthLog(selfOrigin, tag, count)
-	h.other = newTruthLog(otherOrigin, "o", 300)
+	h.other = newTruthLog(otherOrigin, "o", sideCount)
+	h.third = newTruthLog(thirdOrigin, "t", sideCount)
 	h.plain = newTruthLog(plainOrigin, "q", 10)
 	h.mon = &monitors{seed: seed, scenario: scenario, log: h.log}
 	h.sim.mon = h.mon
@@ -125,23 +131,30 @@ func newHist(seed int64, scenario, tag string, count int, out *bytes.Buffer, sta
 	h.mirrorV = ms.Verifier()
 
 	ctx := context.Background()
-	configJSON := fmt.Sprintf(`{"log_meta":{%q:{"Verifiers":[%q],"Mirror":true},%q:{"Verifiers":[%q],"Mirror":true},%q:{"Verifiers":[%q],"Mirror":false}}}`,
-		selfOrigin, h.log.vkey, otherOrigin, h.other.vkey, plainOrigin, h.plain.vkey)
+	configJSON := fmt.Sprintf(`{"log_meta":{%q:{"Verifiers":[%q],"Mirror":true},%q:{"Verifiers":[%q],"Mirror":true},%q:{"Verifiers":[%q],"Mirror":true},%q:{"Verifiers":[%q],"Mirror":false}}}`,
+		selfOrigin, h.log.vkey, otherOrigin, h.other.vkey, thirdOrigin, h.third.vkey, plainOrigin, h.plain.vkey)
 	ckey, pkey, mkey := witness.VerifMirrorLockKeys(h.cfg, selfOrigin)
 	must(h.cfg.Lock.Create(ctx, ckey, []byte(configJSON)))
 	must(h.cfg.Lock.Create(ctx, pkey, nil))
 	must(h.cfg.Lock.Create(ctx, mkey, nil))
-	_, opkey, omkey := witness.VerifMirrorLockKeys(h.cfg, otherOrigin)
-	must(h.cfg.Lock.Create(ctx, opkey, nil))
-	must(h.cfg.Lock.Create(ctx, omkey, nil))
+	for _, sl := range []*truthLog{h.other, h.third} {
+		_, spkey, smkey := witness.VerifMirrorLockKeys(h.cfg, sl.origin)
+		must(h.cfg.Lock.Create(ctx, spkey, nil))
+		must(h.cfg.Lock.Create(ctx, smkey, nil))
+		sm := &monitors{seed: seed, scenario: scenario, log: sl, side: true,
+			prefix: "mirror/" + witness.OriginHash(sl.origin) + "/", pkey: spkey, mkey: smkey}
+		h.sides = append(h.sides, sm)
+	}
+	h.sim.sides = h.sides
 	_, ppkey, _ := witness.VerifMirrorLockKeys(h.cfg, plainOrigin)
 	must(h.cfg.Lock.Create(ctx, ppkey, nil))
 	h.sim.pkey, h.sim.mkey = pkey, mkey
 	h.sim.prefix = "mirror/" + witness.OriginHash(selfOrigin) + "/"
+	h.mon.prefix, h.mon.pkey, h.mon.mkey = h.sim.prefix, pkey, mkey
 
 	h.newWitness()
 	// the other mirrored origin gets a pending checkpoint (outside any event)
-	if code, body := h.post("/add-checkpoint", "", h.other.addCheckpointBody(0, 300)); code != 200 {
+	if code, body := h.post("/add-checkpoint", "", h.other.addCheckpointBody(0, min(300, h.other.count()))); code != 200 {
 		panic(fmt.Sprintf("setup: add-checkpoint for %s: %d %s", otherOrigin, code, body))
 	}
 	h.refreshOtherTicket()
@@ -724,11 +737,54 @@ func (h *hist) answer(s *session, stage string) result {
 	return res
 }
 
+// ---- the other mirrored logs of the instance (no event lines, no faults: the model knows one
+// origin; their requests run to completion, judged by their own monitors) ----------------------
+
+// sidePending: add-checkpoint of side log k from its register size to n
+func (h *hist) sidePending(k int, n int64) int {
+	sm := h.sides[k]
+	old := int64(0)
+	if c, empty := h.sim.register(sm.pkey); !empty {
+		old = c.size
+	}
+	code, _ := h.post("/add-checkpoint", "", sm.log.addCheckpointBody(old, max(old, min(n, sm.log.count()))))
+	h.stats[fmt.Sprintf("side|pending-%d", code)]++
+	return code
+}
+
+// sideUpload: add-entries [start, end) of side log k with the honest entries and proofs, only the
+// first npkg packages if npkg > 0 (an interrupted upload: 202)
+func (h *hist) sideUpload(k int, start, end int64, npkg int) int {
+	sm := h.sides[k]
+	raw := sm.log.header("-", sm.log.origin, start, end, nil, h.r)
+	if start < end {
+		n := -1
+		if npkg > 0 {
+			n = npkg
+		}
+		raw = append(raw, sm.log.bodyBytes(sm.log.honestBody(start, end, n))...)
+	}
+	code, _ := h.post("/add-entries", "application/octet-stream", raw)
+	h.stats[fmt.Sprintf("side|upload-%d", code)]++
+	for _, m := range h.sides {
+		m.monotone(h.sim)
+	}
+	return code
+}
+
 // finish: the end of every history
 func (h *hist) finish() {
 	h.drain()
 	h.evDump()
 	h.mon.final(h.sim)
+	for _, sm := range h.sides {
+		if c, empty := h.sim.register(sm.mkey); !empty && c.size >= 0 {
+			sm.final(h.sim)
+		}
+	}
+	for _, sm := range h.sides {
+		h.mon.fails += sm.fails
+	}
 }
 
 // ---- main -----------------------------------------------------------------------------------
